@@ -137,6 +137,8 @@ def run(ck, facts, tier):
     prims.rule_site_table(ck, facts, "C05.site-table")
     prims.rule_scheduler_heap(ck, facts, "C01.prims")
     prims.rule_unit_merge(ck, facts, "C01.unit-merge")
+    prims.rule_default_rate(ck, facts, "C01.defaults")
+    prims.rule_closure_state(ck, facts, "C01.prims")
     from . import c11
 
     c11.rule_closure_lifetime(ck, facts)
